@@ -7,7 +7,7 @@ import sympy as sp
 from .absint import (Walker, State, text, to_lin, Lin, cond_dnf, fact_key,
                      entails, feasible)
 from .core import AnalysisError
-from .lift import Lifter
+from .lift import Lifter, same_any
 
 EE = 'src/error_estimator.py'
 P = 'src/parametrization.py'
@@ -402,13 +402,12 @@ def _check_inner(prog, report):
                  'seminorm over the element\'s own interval and piece',
                  construct='__integrate_h_1_2: self pair')
     # outer Gauss factor h_t once, affine time points
-    a = {text(n.targets[0]): text(n.value).replace(' ', '')
-         for n in ast.walk(fi.node) if isinstance(n, ast.Assign)
-         and len(n.targets) == 1}
-    ok = a.get('h_t') in ('float(t_b-t_a)', 't_b-t_a') and a.get(
-        'points') == 't_a+h_t*self.gauss.points' and a.get(
-            'approx') in ('h_t*np.dot(val,self.gauss.weights)',
-                          'h_t*np.dot(self.gauss.weights,val)')
+    an = {text(n.targets[0]): n.value
+          for n in ast.walk(fi.node) if isinstance(n, ast.Assign)
+          and len(n.targets) == 1}
+    ok = same_any(an.get('h_t'), 't_b - t_a') and same_any(
+        an.get('points'), 't_a + h_t * self.gauss.points') and same_any(
+            an.get('approx'), 'h_t * np.dot(val, self.gauss.weights)')
     report.check(ok, 'R-patch', '__integrate_h_1_2: time quadrature',
                  fi.where(),
                  'outer Gauss rule mapped to [t_a, t_b] with the factor h_t '
@@ -417,10 +416,13 @@ def _check_inner(prog, report):
     a = {text(n.targets[0]): text(n.value).replace(' ', '')
          for n in ast.walk(fi4.node) if isinstance(n, ast.Assign)
          and len(n.targets) == 1}
-    ok = a.get('h_x') in ('float(x_b-x_a)', 'x_b-x_a') and a.get(
-        'points') == 'x_a+h_x*self.gauss.points' and a.get(
-            'approx') in ('h_x*np.dot(val,self.gauss.weights)',
-                          'h_x*np.dot(self.gauss.weights,val)') and any(
+    an = {text(n.targets[0]): n.value
+          for n in ast.walk(fi4.node) if isinstance(n, ast.Assign)
+          and len(n.targets) == 1}
+    ok = same_any(an.get('h_x'), 'x_b - x_a') and same_any(
+        an.get('points'), 'x_a + h_x * self.gauss.points') and same_any(
+            an.get('approx'),
+            'h_x * np.dot(val, self.gauss.weights)') and any(
                               'self.slobodeckij.seminorm_h_1_4(slo,t_a,t_b)'
                               == v for v in a.values())
     report.check(ok, 'R-patch', '__integrate_h_1_4: space quadrature',
